@@ -50,6 +50,19 @@ theorem if_spec (c t e : Ast) (s : Scope) (cv : Value) (h : evalStep env c s = .
   cases cv <;> simp [ifBranch, pure_def]
   rename_i b; cases b <;> rfl
 
+/-- A `for` over a range whose ends do not both convert to integers (`1.5..3`, `"a"..3`) has
+no value: the result is null, whatever the other iteration contexts and the body are
+(repaired by 95b3835; before, the range was left out and the result was a list). -/
+theorem for_range_not_integers_null (n : String) (lo hi body : Ast) (rest : List Ast) (s : Scope) (a b : Value)
+    (ha : evalStep env lo s = .ok (a, s)) (hb : evalStep env hi s = .ok (b, s))
+    (h : rangeState n a b = none) :
+    evalStep env (.for (.iterationContexts (.iterationContextRange (.name n) lo hi :: rest)) body) s
+      = .ok (.null, s) := by
+  simp only [evalStep, evalIteration, bind_def, ha, hb, h, pure_def]
+
+example : rangeState "i" (.num ⟨false, 15, -1⟩) (.num ⟨false, 3, 0⟩) = none := by decide
+example : (rangeState "i" (.num ⟨false, 10, -1⟩) (.num ⟨false, 300, -2⟩)).isSome = true := by decide
+
 /-- `and` / `or` evaluate both operands (no short circuit) and combine them by the
 three-valued tables of C09. -/
 theorem and_spec (a b : Ast) (s : Scope) (va vb : Value)
